@@ -16,8 +16,11 @@ Access(path, k, form) ==
        ELSE UNCHANGED <<loaded, next>>
     /\ obs' = [op |-> path, name |-> k, form |-> form, res |-> loaded'[k]]
 Next == \E k \in Names, path \in {"get", "attr"}, form \in {"plain", "upper", "dash"} : (path = "attr" => form = "plain") /\ Access(path, k, form)
-SimNext == LET k == RandomElement(Names) path == RandomElement({"get", "attr"}) form == IF path = "attr" THEN "plain" ELSE RandomElement({"plain", "upper", "dash"})
-           IN Access(path, k, form)
+\* (random choices are drawn inside \E over a singleton: a LET-bound RandomElement over constants is evaluated once
+\* for the whole run, and one that is re-evaluated is re-drawn at every reference)
+Rnd(S, d) == IF d >= 0 THEN RandomElement(S) ELSE CHOOSE x \in S : TRUE
+SimNext == \E k \in {Rnd(Names, n)}, path \in {Rnd({"get", "attr"}, n)}, f \in {Rnd({"plain", "upper", "dash"}, n)} :
+               Access(path, k, IF path = "attr" THEN "plain" ELSE f)
 \* both paths give the object loaded first; different names give different objects
 InvSameObject == obs.op \in {"get", "attr"} => obs.res = loaded[obs.name]
 InvDistinct == \A a, b \in Names : (a # b /\ loaded[a] # 0) => loaded[a] # loaded[b]
